@@ -12,3 +12,6 @@ type modSet struct {
 	elems  map[string]bool     // element/pointee types stored to through IndexAddr or plain pointers
 	all    bool                // unknown effects
 }
+
+const iePkg = "github.com/wmnsk/go-pfcp/ie"
+const msgPkg = "github.com/wmnsk/go-pfcp/message"
